@@ -23,6 +23,7 @@ type seedEnc struct {
 	Name   string
 	Data   []byte
 	IsObj  bool    // decoded by DecodeObject (else: an encoded Bytecode)
+	V1     bool    // version field rewritten to 1
 	Fields []field // structural fields (nil when the walker could not follow the encoding)
 	Struct []bool  // per position: part of a tag / size / length field
 }
@@ -242,7 +243,7 @@ func buildSeeds() ([]seedEnc, error) {
 			if ver == 1 {
 				d = withVersion(data, 1)
 			}
-			out = append(out, seedEnc{Name: fmt.Sprintf("%s/v%d", name, ver), Data: d, Fields: fs, Struct: structural(len(d), fs)})
+			out = append(out, seedEnc{Name: fmt.Sprintf("%s/v%d", name, ver), Data: d, V1: ver == 1, Fields: fs, Struct: structural(len(d), fs)})
 		}
 		return nil
 	}
